@@ -12,6 +12,7 @@ class Boom(Exception):
 
 # acts
 CONT, RET, RAISE, KBD, REMOVE, EXTEND = 'cont', 'ret', 'raise', 'kbd', 'remove', 'extend'
+REMOVE_AT, EXTEND_AT = 'remove-at', 'extend-at'
 KINDS = ('plain', 'gen', 'func', 'meth')
 
 
@@ -47,6 +48,7 @@ class World:
         self.host = {}       # doer name -> scheduler (Doist/DoDoer) it acts upon
         self.doers = {}      # name -> doer object
         self.dogs = []       # generator objects created (leak detection)
+        self.top = None      # the Doist
         self.watch_done = ()  # names whose .done flag is snapshotted at every recur event
         self.flags = []
 
@@ -56,18 +58,43 @@ class World:
             self.flags.append((name, tuple((n, done_of(self.doers[n])) for n in self.watch_done)))
 
     def perform(self, name, act, arg):
+        if act in (REMOVE_AT, EXTEND_AT):
+            return self.perform_at(name, REMOVE if act == REMOVE_AT else EXTEND, arg[0], arg[1])
         if act == RAISE:
             raise Boom(name)
         if act == KBD:
             raise KeyboardInterrupt()
         if act == REMOVE:
-            self.ev(name, 'call-remove', tuple(arg))
-            self.host[name].remove([self.doers[a] for a in arg])
-            self.ev(name, 'ret-remove', tuple(arg))
+            self.ev(name, 'call-remove', (tuple(arg), self.listing(name)))
+            try:
+                self.host[name].remove([self.doers[a] for a in arg])
+            finally:
+                self.ev(name, 'ret-remove', (tuple(arg), self.listing(name)))
         if act == EXTEND:
-            self.ev(name, 'call-extend', tuple(arg))
-            self.host[name].extend([self.doers[a] for a in arg])
-            self.ev(name, 'ret-extend', tuple(arg))
+            self.ev(name, 'call-extend', (tuple(arg), self.listing(name)))
+            try:
+                self.host[name].extend([self.doers[a] for a in arg])
+            finally:
+                self.ev(name, 'ret-extend', (tuple(arg), self.listing(name)))
+
+    def perform_at(self, name, act, hostname, arg):
+        """like perform but acting on a named scheduler (a controller doer managing a DoDoer it is not a child of)"""
+        saved = self.host.get(name)
+        self.host[name] = self.doers[hostname] if hostname else self.top
+        try:
+            self.perform(name, act, arg)
+        finally:
+            self.host[name] = saved
+
+    def name_of(self, d):
+        for n, x in self.doers.items():
+            if x is d:
+                return n
+        return '?'
+
+    def listing(self, name):
+        """names in the .doers list of the scheduler that `name` acts upon"""
+        return tuple(self.name_of(d) for d in self.host[name].doers)
 
     def names(self, event):
         return [n for (n, e, t) in self.trace if e == event]
@@ -80,6 +107,11 @@ class PlainDoer(doing.Doer):
         self.w = world
         self.s = script
         self.step = 0
+
+    def __call__(self, *pa, **kwa):
+        g = super().__call__(*pa, **kwa)
+        self.w.dogs.append((self.s.name, g))     # strong reference: garbage collection must not mask a leaked dog
+        return g
 
     def enter(self, *, temp=None):
         self.w.ev(self.s.name, 'enter', self.tyme)
@@ -167,9 +199,18 @@ def gfun(tymth, tock=0.0, world=None, script=None, **opts):
     return ret
 
 
+def gfun_recorded(tymth, tock=0.0, world=None, script=None, **opts):
+    """what gets doify'd: returns the gfun generator after taking a strong reference to it"""
+    g = gfun(tymth, tock=tock, world=world, script=script, **opts)
+    world.dogs.append((script.name, g))
+    return g
+
+
 class Holder:
     def meth(self, tymth, tock=0.0, world=None, script=None, **opts):
-        return (yield from gfun(tymth, tock=tock, world=world, script=script))
+        g = gfun(tymth, tock=tock, world=world, script=script)
+        world.dogs.append((script.name, g))
+        return g
 
 
 class Group(doing.DoDoer):
@@ -178,6 +219,11 @@ class Group(doing.DoDoer):
         super().__init__(**kw)
         self.w = world
         self.gname = name
+
+    def __call__(self, *pa, **kwa):
+        g = super().__call__(*pa, **kwa)
+        self.w.dogs.append((self.gname, g))
+        return g
 
     def enter(self, doers=None, *, temp=None):
         if doers is None:
@@ -209,7 +255,7 @@ def make(kind, world, script):
     elif kind == 'gen':
         d = GenDoer(world, script)
     elif kind == 'func':
-        d = doing.doify(gfun, name=script.name, tock=script.tock0, world=world, script=script)
+        d = doing.doify(gfun_recorded, name=script.name, tock=script.tock0, world=world, script=script)
     elif kind == 'meth':
         d = doing.doify(Holder().meth, name=script.name, tock=script.tock0, world=world, script=script)
     else:
@@ -220,6 +266,11 @@ def make(kind, world, script):
 
 def done_of(d):
     return d.done
+
+
+def leaked(world):
+    """names of doers whose generator is still suspended (started, not finished)"""
+    return [n for (n, g) in world.dogs if g.gi_frame is not None and g.gi_frame.f_lasti >= 0]
 
 
 # ---------------------------------------------------------------------------------------------------
